@@ -773,7 +773,7 @@ var checks = map[string]Check{
 	},
 	"C06": {
 		Level:       "fault_enumeration",
-		Rule:        "per protocol (raw, json, pb, thrift-binary, http) a live server session is fed one hostile input and then EOF, next to a control session on the same peer: (a) every byte string up to length 4 (quick) / 6 over a 7-symbol per-protocol alphabet, (b) every prefix of every frame of a 4-frame alphabet packed by the real protocol, (c) 7 single-byte substitutions at every offset of those frames, (d) the size field (size word / Content-Length) set to 12 boundary values around the read limit followed by a 64 KiB payload; oracles: no escaped panic, no blocked goroutine after EOF and close, session cleanly ended (health, close notification, index), control session answers a probe, bytes allocated while handling the input <= limit + fixed slack, oversize announcement => disconnect with at most the transport read-ahead consumed; classes (b) and (c) again with a call of the attacked session waiting for a reply, which must complete (non-OK) once the input is exhausted; a case = one input; distinct = distinct observation logs",
+		Rule:        "per protocol (raw, json, pb, thrift-binary, http) a live server session is fed one hostile input and then EOF, next to a control session on the same peer: (a) every byte string up to length 4 (quick) / 6 over a 7-symbol per-protocol alphabet, (b) every prefix of every frame of a 4-frame alphabet packed by the real protocol, (c) 9 single-byte substitutions (0xe2 and 0xc3, the lead bytes of cut-off UTF-8 sequences, included) at every offset of those frames, (d) the size field (size word / Content-Length) set to 12 boundary values around the read limit followed by a 64 KiB payload; oracles: no escaped panic, no blocked goroutine after EOF and close, session cleanly ended (health, close notification, index), control session answers a probe, bytes allocated while handling the input <= limit + fixed slack, oversize announcement => disconnect with at most the transport read-ahead consumed; classes (b) and (c) again with a call of the attacked session waiting for a reply, which must complete (non-OK) once the input is exhausted; and (raw, json) with the attacked peer logging every message in detail and serving unknown routes through the unknown handlers; a case = one input; distinct = distinct observation logs",
 		Assumptions: append([]string{"allocation is measured with runtime.MemStats.TotalAlloc around the handling of one input (slack 768 KiB + 2x input length); inputs are fed under the deterministic default schedule (quick) / all non-preemptive schedules (thorough, raw)", "read limits 1024 (all protocols) and 64 / 1 MiB (raw)"}, baseAssumptions...),
 		Jobs: func(tier string) []Job {
 			var js []Job
@@ -799,6 +799,14 @@ var checks = map[string]Check{
 					if tier == "thorough" {
 						j.Shards = 8
 					}
+					js = append(js, j)
+				}
+			}
+			// the attacked peer logs every message in detail and serves unknown routes (raw byte bodies reach the log)
+			for _, pr := range []string{"raw", "json"} {
+				for _, cl := range []string{"prefix", "subst"} {
+					j := sched("c06", "proto="+pr+",class="+cl+",len="+l+",detail=1", 0, 2)
+					j.EnvOnly = true
 					js = append(js, j)
 				}
 			}
